@@ -17,6 +17,10 @@ Inductive kind :=
   | Float          (* float arithmetic, conversion, or a call whose signature carries a float *)
   | TaintedGlobal  (* read of a package-level variable whose initialiser reads a source *)
   | GlobalWrite    (* write to a package-level variable outside package initialisation *)
+  | SharedValueMutation (* in-place arithmetic of cosmossdk.io/math (methods named ...Mut, Set...) on a
+                           value the function was handed (parameter, field, map entry, package variable):
+                           a LegacyDec shares its big.Int with every copy, so this rewrites e.g. a ratio
+                           held in a keeper registry *)
   | SharedMapWrite. (* update of a Go map that the function did not create itself (a field of the
                        receiver or of a parameter, a parameter, a call result): process-local memory
                        that outlives the call, survives a rolled-back transaction and is lost at a
@@ -26,6 +30,7 @@ Definition kind_code (k : kind) : Z :=
   match k with
   | Clock => 1 | Entropy => 2 | HostEnv => 3 | MapRange => 4 | Goroutine => 5
   | Select => 6 | Float => 7 | TaintedGlobal => 8 | GlobalWrite => 9 | SharedMapWrite => 10
+  | SharedValueMutation => 20
   end%Z.
 
 Definition kind_eqb (a b : kind) : bool := Z.eqb (kind_code a) (kind_code b).
